@@ -153,6 +153,7 @@ impl Report {
                 "states": st,
                 "transitions": s.transitions.load(Ordering::Relaxed),
                 "distinct_outputs": d,
+                "distinct_outputs_saturated": d as usize >= crate::DIGEST_CAP,
                 "violations": s.violation_count.load(Ordering::Relaxed),
                 "unexpected_err": s.unexpected_err.load(Ordering::Relaxed),
                 "unexpected_err_samples": *s.err_samples.lock().unwrap(),
